@@ -314,7 +314,7 @@ func genOps(t *rapid.T, o genOpts, topo *vfkit.Topo, genCfg func(t *rapid.T) *vh
 		case "reconfig":
 			op.Cfg = genCfg(t)
 		}
-		if k == "update" && rapid.IntRange(0, 4).Draw(t, "refusedThenStopped") == 0 {
+		if k == "update" && !o.UpdateHeavy && rapid.IntRange(0, 4).Draw(t, "refusedThenStopped") == 0 {
 			// an update the policy has to refuse (more CPUs than the machine has), then the
 			// same container is stopped: the next reply-carrying request addresses a container
 			// that itself has undelivered changes
